@@ -17,12 +17,12 @@ func initFormalParameterNode() {
 			argKind := ast.ParameterKind(args[2].AsUInt8())
 
 			var argType ast.TypeNode
-			if !args[3].IsUndefined() {
+			if !args[3].IsUndefined() && !args[3].IsNil() {
 				argType = args[3].MustReference().(ast.TypeNode)
 			}
 
 			var argInit ast.ExpressionNode
-			if !args[4].IsUndefined() {
+			if !args[4].IsUndefined() && !args[4].IsNil() {
 				argInit = args[4].MustReference().(ast.ExpressionNode)
 			}
 
